@@ -24,6 +24,10 @@ type MemFS struct {
 	RawStats []*types.Stat
 	RawData  map[string][]byte
 
+	// LinkSizeFull makes hard-link members announce the full file size, as the
+	// on-disk walker does; by default they announce size 0 (tar convention).
+	LinkSizeFull bool
+
 	WalkErrAt   int   // 1-based entry index at which Walk's callback gets an error (0 = none)
 	WalkErr     error // the error
 	ReadErrPath string
@@ -47,8 +51,12 @@ func (m *MemFS) stats() []*types.Stat {
 		return m.RawStats
 	}
 	out := make([]*types.Stat, len(m.T.Nodes))
+	idx := m.T.Index()
 	for i := range m.T.Nodes {
 		out[i] = m.T.Nodes[i].Stat()
+		if n := &m.T.Nodes[i]; m.LinkSizeFull && n.Kind == KFile && n.LinkTo != "" {
+			out[i].Size = int64(idx[n.LinkTo].Size)
+		}
 	}
 	return out
 }
